@@ -55,7 +55,8 @@ CHECKS["C06"] = dict(
         "ghosts none, unused arc shape, one entry per key, references only on live entries) holds after flush and is preserved by every get/insert/put/"
         "discard for every capacity and history (the full invariant under the put protocol, the weak one unconditionally); the 'cannot happen' arms are "
         "unreachable; busy iff key absent and pinned+inflight >= cap; referenced entries are never evicted or rewritten; entries keep key and buffer "
-        "while cached. Tie: the real cache.c is compiled into the harness, random protocol-respecting histories at capacities 1..64 are run on it, the "
+        "while cached; a replaced cache (cache_release) is freed iff it is orphaned and all 2*cap reference counts are 0, after release and after every "
+        "drop (life_release_inv, life_drop_inv, life_history). Tie: the real cache.c is compiled into the harness, random protocol-respecting histories at capacities 1..64 are run on it, the "
         "derived arc view of the real struct cache is compared with the model after every operation, and the invariant, reference counts, hit data and "
         "busy rule are evaluated on the implementation's own state.",
    note=TB + "The five-arc reading of the ring is checked, not assumed (the harness derives it from split+counters and also prints the raw links). "
